@@ -59,7 +59,11 @@ def o_completeness(rng, n=6, max_N=(4, 3, 2), with_cutoff=False, orders=(2, 3, 4
             cr = crystal(rng, max_N=max_N[order - 2])
             inp = {"crystal": cr, "orders": [order], "cutoff": None}
             if hooks:
-                inp["hooks"] = dict(hooks, eig_target=rng.randint(3, 7))
+                inp["hooks"] = dict(hooks)
+                if "eig_threshold" in hooks:
+                    inp["hooks"]["eig_target"] = rng.randint(3, 7)
+                if "perm_nbatch" in hooks:
+                    inp["hooks"]["perm_nbatch"] = rng.choice([2, 3, 4, 5, 7])
             if with_cutoff and k % 2:
                 from . import physics as ph
                 d = ph.min_image_distances(cr)
@@ -300,7 +304,11 @@ PROPS = {
                     "thorough": {"n": 36, "with_cutoff": True}, "search": {"n": 24, "with_cutoff": True}},
                    {"name": "completeness_large_eigen_path", "fn": o_completeness,
                     "quick": {"n": 6, "hooks": {"eig_threshold": 5}}, "thorough": {"n": 24, "hooks": {"eig_threshold": 5}},
-                    "search": {"n": 24, "hooks": {"eig_threshold": 5}}}],
+                    "search": {"n": 24, "hooks": {"eig_threshold": 5}}},
+                   {"name": "completeness_batched_permutation_stage", "fn": o_completeness,
+                    "quick": {"n": 4, "orders": (3, 4), "hooks": {"perm_nbatch": 3}},
+                    "thorough": {"n": 16, "orders": (3, 4), "hooks": {"perm_nbatch": 3}},
+                    "search": {"n": 16, "orders": (3, 4), "hooks": {"perm_nbatch": 3}}}],
         "known": known_F1, "known_explains": ("none",),
         "corpus": [{"name": "corpus_F1_order4_two_atom_P1", "fn": corpus_F1_completeness}],
         "trusted": [KERNELS["eigh"], KERNELS["numpy"], KERNELS["float"]],
